@@ -234,6 +234,63 @@ End Solver.
 
 Arguments stage_loop {X}. Arguments run_stage {X}. Arguments call_stages {X}. Arguments call_solver {X}.
 
+(** ** Invariants of the iterates
+
+    A predicate that every update establishes (in the implementation: "the density and the bulk densities are
+    non-negative" — Picard, Anderson mixing and Newton all end an update with [mapv_inplace(f64::abs)], the log
+    variants with [exp]) and that evaluating the residual preserves, holds for whatever [solve] returns, provided
+    it holds for the initial profile. *)
+Section Invariant.
+  Variable X : Type.
+  Variable eval : X -> option (Q * X).
+  Variable step : stage -> list X -> X -> option X.
+  Variable Inv : X -> Prop.
+  Hypothesis eval_inv : forall x r x1, eval x = Some (r, x1) -> Inv x -> Inv x1.
+  Hypothesis step_inv : forall st hist x x', step st hist x = Some x' -> Inv x'.
+
+  Lemma stage_loop_inv st fuel : forall k hist x c k' x',
+    Inv x -> stage_loop eval step st fuel k hist x = Some (c, k', x') -> Inv x'.
+  Proof.
+    induction fuel as [|f IH]; intros k hist x c k' x' Hx H; simpl in H.
+    - inversion H; subst. assumption.
+    - destruct (eval x) as [[r x1]|] eqn:E; [|discriminate].
+      pose proof (eval_inv _ _ _ E Hx) as H1.
+      destruct (Qltb r (s_tol st)).
+      + inversion H; subst. assumption.
+      + destruct (step st hist x1) as [y|] eqn:S; [|discriminate].
+        eapply IH; [|exact H]. eapply step_inv; exact S.
+  Qed.
+
+  Lemma call_stages_inv stages : forall x c0 i0 o0 c it x' outs,
+    Inv x -> call_stages eval step stages x c0 i0 o0 = Some (c, it, x', outs) -> Inv x'.
+  Proof.
+    induction stages as [|st rest IH]; intros x c0 i0 o0 c it x' outs Hx H; simpl in H.
+    - inversion H; subst. assumption.
+    - destruct (run_stage eval step st x) as [[[c1 k1] x1]|] eqn:R; [|discriminate].
+      eapply IH; [|exact H]. unfold run_stage in R. eapply stage_loop_inv; eassumption.
+  Qed.
+
+  Theorem solve_preserves_invariant stages debug x x' c it :
+    Inv x -> call_solver eval step stages debug x = Ok x' c it -> Inv x'.
+  Proof.
+    intros Hx H. apply solve_ok_iff in H. destruct H as (outs & H & _). eapply call_stages_inv; eassumption.
+  Qed.
+
+  (** what is returned is the initial state (evaluated) or an evaluated update: if the initial profile does NOT
+      satisfy the predicate it can survive only when no update is made at all *)
+  Theorem stage_result_is_initial_or_update st x c k x' :
+    run_stage eval step st x = Some (c, k, x') -> (k = 0 /\ (x' = x \/ exists r, eval x = Some (r, x'))) \/ Inv x'.
+  Proof.
+    unfold run_stage. destruct (s_max_iter st) as [|f] eqn:M; simpl.
+    - intros H. inversion H; subst. left. rewrite M. auto.
+    - destruct (eval x) as [[r x1]|] eqn:E; [|discriminate].
+      destruct (Qltb r (s_tol st)).
+      + intros H. inversion H; subst. left. split; [reflexivity|]. right. now exists r.
+      + destruct (step st [] x1) as [y|] eqn:S; [|discriminate]. intros H. right.
+        eapply stage_loop_inv; [|exact H]. eapply step_inv; exact S.
+  Qed.
+End Invariant.
+
 (** ** The implementation's instance: evaluating does not change the profile.
 
     State = (profile, log); [el] is the residual norm of a profile; evaluation appends the norm to the log and
